@@ -1243,6 +1243,19 @@ TARGETS = [
     ('pyramid/config/tweens.py', 'Tweens', ['add_explicit', 'add_implicit', 'implicit', '__call__']),
     ('pyramid/config/views.py', 'ViewsConfiguratorMixin', ['_apply_view_derivers']),
 ]
+# every source function whose control flow is regenerated on every run (closures as Outer.inner)
+TRANSLATED = [
+    'pyramid/util.py:TopologicalSorter.remove',
+    'pyramid/util.py:TopologicalSorter.add',
+    'pyramid/util.py:TopologicalSorter.sorted',
+    'pyramid/util.py:TopologicalSorter.sorted.add_node',
+    'pyramid/util.py:TopologicalSorter.sorted.add_arc',
+    'pyramid/config/tweens.py:Tweens.add_explicit',
+    'pyramid/config/tweens.py:Tweens.add_implicit',
+    'pyramid/config/tweens.py:Tweens.implicit',
+    'pyramid/config/tweens.py:Tweens.__call__',
+    'pyramid/config/views.py:ViewsConfiguratorMixin._apply_view_derivers',
+]
 GEN_NAMES = ['gen_remove', 'gen_add', 'gen_sorted', 'gen_tw_add_explicit', 'gen_tw_add_implicit', 'gen_tw_implicit',
              'gen_tw_call', 'gen_apply_view_derivers']
 
